@@ -25,6 +25,11 @@ pub struct Case {
     pub cycle: Option<Vec<String>>,
     #[serde(default)]
     pub source: String,
+    /// stand-alone "single-mention" program (c11_pos): its top-level items; `orders` permutes them, `prog` is empty
+    #[serde(default)]
+    pub positions: Option<Vec<String>>,
+    #[serde(default)]
+    pub position_ids: Vec<String>,
 }
 
 pub fn toplevel_cfg(thorough: bool) -> GenCfg {
@@ -93,6 +98,86 @@ fn render_with(case: &Case, order: &[usize]) -> String {
     }
 }
 
+/// single-mention programs: every order is accepted, loads, and prints the same lines as the first order
+fn evaluate_positions(case: &Case, items: &[String], labels: &mut Labels) -> Verdict {
+    labels.add("single-mention-program");
+    for id in &case.position_ids {
+        labels.add(format!("position:{}", id));
+    }
+    let text = |order: &[usize]| -> String { order.iter().filter_map(|i| items.get(*i)).cloned().collect::<Vec<_>>().join("\n") + "\n" };
+    let mut first: Option<(usize, vcore::luarun::Trace)> = None;
+    let mut accepted = 0;
+    let mut rejected: Vec<(usize, String)> = Vec::new();
+    for (k, order) in case.orders.iter().enumerate() {
+        let src = text(order);
+        match compile(&Project::single(src.clone())) {
+            Outcome::Accepted(lua) => {
+                accepted += 1;
+                match run_lua(&lua, 2_000_000) {
+                    LuaOutcome::LoadError { class, msg, .. } => {
+                        return Verdict::Violation {
+                            signature: format!("C11/lua-load/{}", class),
+                            detail: format!("order #{}: emitted chunk does not load: {}\n--- source ---\n{}", k, msg, src),
+                        };
+                    }
+                    LuaOutcome::Ran(t) => {
+                        if let Terminal::OutOfBudget(_) = t.terminal {
+                            return Verdict::Discard("lua-budget".into());
+                        }
+                        match &first {
+                            None => first = Some((k, t)),
+                            Some((k0, t0)) => {
+                                let same_end = format!("{:?}", t0.terminal) == format!("{:?}", t.terminal);
+                                if let Some((kind, what)) = diff_traces(t0, &t).or_else(|| if same_end { None } else { Some(("terminal-differs".to_string(), format!("{:?} vs {:?}", t0.terminal, t.terminal))) }) {
+                                    return Verdict::Violation {
+                                        signature: format!("C11/orders-differ/{}", kind),
+                                        detail: format!(
+                                            "two orders of the same top-level definitions behave differently ({}; positions {:?}): {}\n--- order #{} ---\n{}\n--- order #{} ---\n{}",
+                                            kind,
+                                            case.position_ids,
+                                            what,
+                                            k0,
+                                            text(&case.orders[*k0]),
+                                            k,
+                                            src
+                                        ),
+                                    };
+                                }
+                            }
+                        }
+                    }
+                }
+            }
+            Outcome::Rejected { errors, bytes_written } => {
+                if bytes_written > 0 {
+                    return Verdict::Violation { signature: "C11/wrote-lua-on-error".into(), detail: "bytes written although rejected".into() };
+                }
+                rejected.push((k, format!("{}:{}", errors[0].kind, message_class(&errors[0].message))));
+            }
+            Outcome::Panicked { .. } => return Verdict::Discard("compiler-panicked".into()),
+        }
+    }
+    if accepted > 0 && !rejected.is_empty() {
+        let (k, why) = &rejected[0];
+        return Verdict::Violation {
+            signature: format!("C11/acceptance-depends-on-order/{}", why),
+            detail: format!("{} of {} orders are accepted, order #{} is rejected ({})\n--- rejected order ---\n{}", accepted, case.orders.len(), k, why, text(&case.orders[*k])),
+        };
+    }
+    if accepted == 0 {
+        // the catalogue is meant to be valid Sylt: a rejected template is a harness defect (see health())
+        labels.add(format!("single-mention-rejected:{}:{}", case.position_ids.join("+"), rejected[0].1));
+        return Verdict::Discard("single-mention-rejected".into());
+    }
+    if let Some((_, t)) = &first {
+        if !matches!(t.terminal, Terminal::Ok) {
+            labels.add(format!("single-mention-run-ends:{:?}", t.terminal));
+        }
+    }
+    labels.add("accepted");
+    Verdict::Pass { nontrivial: true }
+}
+
 impl Check for C11 {
     type Case = Case;
     fn id(&self) -> &'static str {
@@ -100,6 +185,16 @@ impl Check for C11 {
     }
     fn generate(&self, u: &mut Unstructured, tier: Tier) -> Option<Case> {
         let mut t = Tape::new(u);
+        if t.chance(1, 5) {
+            let (items, ids) = crate::c11_pos::build(&mut t);
+            let n = items.len();
+            let mut orders: Vec<Vec<usize>> = vec![(0..n).collect(), (0..n).rev().collect()];
+            for _ in 0..tier.pick(6, 10) {
+                orders.push(permutation(&mut t, n));
+            }
+            let source = items.join("\n") + "\n";
+            return Some(Case { prog: Program::default(), orders, cycle: None, source, positions: Some(items), position_ids: ids });
+        }
         let prog = Gen::new(&mut t, toplevel_cfg(tier == Tier::Thorough)).program();
         let cycle: Option<Vec<String>> = if t.chance(1, 6) { Some(t.pick(CYCLES).iter().map(|s| s.to_string()).collect()) } else { None };
         let n = n_items(&prog) + cycle.as_ref().map(|c| c.len()).unwrap_or(0);
@@ -111,12 +206,15 @@ impl Check for C11 {
         for _ in 0..tier.pick(3, 5) {
             orders.push(permutation(&mut t, n));
         }
-        let mut case = Case { prog, orders, cycle, source: String::new() };
+        let mut case = Case { prog, orders, cycle, source: String::new(), positions: None, position_ids: Vec::new() };
         case.source = render_with(&case, &case.orders[0]);
         Some(case)
     }
 
     fn evaluate(&self, case: &Case, labels: &mut Labels) -> Verdict {
+        if let Some(items) = &case.positions {
+            return evaluate_positions(case, items, labels);
+        }
         let n = n_items(&case.prog);
         // cyclic variants: rejected in every order
         if case.cycle.is_some() {
@@ -250,7 +348,7 @@ impl Check for C11 {
     }
 
     fn simplify_at(&self, case: &Case, idx: usize) -> Step<Case> {
-        if case.cycle.is_some() {
+        if case.cycle.is_some() || case.positions.is_some() {
             return Step::End;
         }
         let pc = ProgCase { prog: case.prog.clone(), plan: SurfacePlan::default(), source: String::new() };
@@ -278,7 +376,7 @@ impl Check for C11 {
                         })
                         .collect()
                 };
-                let mut c = Case { prog: p.prog, orders, cycle: None, source: String::new() };
+                let mut c = Case { prog: p.prog, orders, cycle: None, source: String::new(), positions: None, position_ids: Vec::new() };
                 c.source = render_with(&c, &c.orders[0]);
                 Step::Candidate(c)
             }
@@ -296,7 +394,10 @@ impl Check for C11 {
          - it may print and assign mutable globals - so that the documented semantics make the behaviour order-independent) rendered \
          in the identity order, the reverse, a rotation and 3 (quick) / 5 (thorough) random permutations of all top-level items \
          (types included); 1 case in 6 additionally carries a planted dependency cycle (value<->value, value->function->value, a \
-         3-cycle, through an immediately applied closure). Oracle: every order is accepted and its mini-Lua trace equals the reference \
+         3-cycle, through an immediately applied closure); 1 case in 5 is instead a stand-alone single-mention program (c11_pos: \
+         a function or initialiser that mentions a global at exactly one of 49 syntactic positions - loop condition and body, both \
+         operands of one operator, case scrutinee / arm / else, stores, field stores, lambdas, call sugar ... - reached from start or \
+         from another initialiser) in 8 (quick) / 12 (thorough) orders, all of which must be accepted and print the same lines. Oracle: every order is accepted and its mini-Lua trace equals the reference \
          interpreter's trace of the program (or every order is rejected); a planted cycle is rejected in every order with zero bytes \
          written. non-trivial = a permutation inverts the textual order of at least two globals and there are >= 4 globals, or a cyclic \
          variant; distinct by case hash"
